@@ -80,7 +80,7 @@ def make_cases(rng, nbase):
         T = g.rust_type(t)
         E = g.rust_expr(v, t)
         S = tgen.sexp(v)
-        for mode in ("root", "root-index-arg", "root-paren-index", "root-index-impl", "root-deref-field", "chain", "index", "arg", "await"):
+        for mode in ("root", "root-index-arg", "root-paren-index", "root-index-impl", "root-deref-field", "chain", "index", "arg", "await", "list-index", "list-neg-index"):
             c = t3.Case()
             c.id = k
             k += 1
@@ -108,6 +108,14 @@ def make_cases(rng, nbase):
                                                        "#[derive(Debug)] pub struct W2 { w: W }" % (T, T, T))
                     c.meanings = c.meanings[:-1] + " (v %s (int 0)))" % tgen.hexs("0")
                     t3.finish_case(c, decls, "W2", "W2 { w: W { f: %s } }" % E, adt("W2", ["w"], ["(seq %s)" % S]), "W2 { w[0]: %s }" % pat)
+                elif mode.startswith("list-"):
+                    # an index AFTER a counting getter; `[-1]` does not compile today (usize has no negation) - should a tree accept it,
+                    # whatever it means the getter in front of it still runs once
+                    decls = g.decls() + COUNT_DECLS + ("#[derive(Debug)] pub struct W { f: %s, fs: Vec<%s> }\nimpl W { pub fn list(&self) -> &Vec<%s> { tick(&self.fs) } }\n"
+                                                       "#[derive(Debug)] pub struct W2 { w: W }" % (T, T, T))
+                    ix = "0" if mode == "list-index" else "-1"
+                    c.meanings = c.meanings[:-1] + " (m %s %s) (v %s (int 0)))" % (tgen.hexs("list"), tgen.hexs("field:fs"), tgen.hexs(ix))
+                    t3.finish_case(c, decls, "W2", "W2 { w: W { f: %s, fs: vec![%s] } }" % (E, E), adt("W2", ["w"], [adt("W", ["f", "fs"], [S, "(seq %s)" % S])]), "W2 { w.list()[%s]: %s }" % (ix, pat))
                 else:
                     decls = g.decls() + COUNT_DECLS + ("#[derive(Debug)] pub struct W { f: %s }\nimpl W { pub fn get(&self) -> &%s { tick(&self.f) } pub fn at(&self, _i: usize) -> &%s { &self.f } "
                                                        "pub async fn aget(&self) -> &%s { tick(&self.f) } }\n#[derive(Debug)] pub struct W2 { w: W }" % (T, T, T, T))
@@ -210,7 +218,7 @@ def run(ck):
     ck.corr_record("T3 evaluation counters (asserted expression and method-call chains wrapped in counting calls; every form, passing and failing)",
                    len(cases), len({c.text + c.value_text for c in cases}), 0, dist,
                    samples=[dict(invocation="assert_struct!(%s)" % c.text[:150], outcome=c.got[0], ticks=getattr(c, "extra", {}).get("ticks")) for c in cases[:3]],
-                   rule="every atom form / range shape / compound type of the C11 catalogue x {matching, bound-crossing value} x {counting asserted expression (a call; an index expression with a counting operand, plain and parenthesised; a counting user Index impl; a field through a counting user Deref impl), counting getter chain, counting user Index impl, counting method argument, counting async getter under .await}; every case distinct")
+                   rule="every atom form / range shape / compound type of the C11 catalogue x {matching, bound-crossing value} x {counting asserted expression (a call; an index expression with a counting operand, plain and parenthesised; a counting user Index impl; a field through a counting user Deref impl), counting getter chain, counting user Index impl, counting method argument, counting async getter under .await, index `[0]` / `[-1]` after a counting getter}; every case distinct")
     if t2_mm and not found:
         ck.report("corr:T2-body", "the model of the code generator no longer matches the real expansion (%d inputs differ)" % len(t2_mm),
                   dict(broken="correspondence T2 (expansion tokens)", theorems=["C08_root_bound_once", "C08_leaf_evaluations"], first=t2_mm[:3]), no_input=True)
